@@ -122,14 +122,26 @@ def urlPolicy (scheme tls : String) : Option (Nat × String) :=
   else if scheme == "smtps" then some (465, "Wrapper")
   else none
 
-/-- `ctor <kind> …`: the convenience constructors -/
+/-- the facts read off a builder's Debug text are usable: a port number and one of the four TLS modes -/
+def factsOk (r : String) : Bool :=
+  match r.splitOn "," with
+  | [port, tls, _] => port.toNat?.isSome && ["None", "Opportunistic", "Required", "Wrapper"].contains tls
+  | _ => false
+
+/-- `ctor <kind> …`: the convenience constructors. What they configure is read off the builder's Debug text: when that
+    text can no longer be read the correspondence is broken (`MISMATCH`), a readable configuration that is not the
+    expected one is a failure of the property. -/
 def ctorOp : List String → String
   | ["relay", host, rs, ra] =>
     let exp := s!"465,Wrapper,{host}"
-    if rs == exp && ra == exp then "ok" else propfail s!"relay-is-not-implicit-TLS-on-465:{rs}:{ra}"
+    if rs == exp && ra == exp then "ok"
+    else if !(factsOk rs && factsOk ra) then s!"MISMATCH ctor model={exp}"
+    else propfail s!"relay-is-not-implicit-TLS-on-465:{rs}:{ra}"
   | ["starttls", host, rs, ra] =>
     let exp := s!"587,Required,{host}"
-    if rs == exp && ra == exp then "ok" else propfail s!"starttls_relay-is-not-required-TLS-on-587:{rs}:{ra}"
+    if rs == exp && ra == exp then "ok"
+    else if !(factsOk rs && factsOk ra) then s!"MISMATCH ctor model={exp}"
+    else propfail s!"starttls_relay-is-not-required-TLS-on-587:{rs}:{ra}"
   | ["localhost", rs, ra] =>
     let exp := "25,None,6c6f63616c686f7374"
     if rs == exp && ra == exp then "ok" else s!"MISMATCH ctor model={exp}"
@@ -139,7 +151,8 @@ def ctorOp : List String → String
       | none => "err"
     if rs == "PANIC" then propfail "panic"
     else if rs == exp && ra == exp then "ok"
-    else if exp != "err" && (rs == "err" || ra == "err") then s!"MISMATCH ctor model={exp}"
+    else if exp == "err" && (factsOk rs || factsOk ra) then s!"MISMATCH ctor model={exp}"
+    else if exp != "err" && !(factsOk rs && factsOk ra) then s!"MISMATCH ctor model={exp}"
     else propfail s!"connection-URL-configures-{rs}-and-{ra}-instead-of-{exp}"
   | ["mech", r] => if r == "101" then "ok" else s!"MISMATCH ctor model=101"
   | l => if l.getLast? == some "PANIC" then propfail "panic" else "BADLINE"
